@@ -1,7 +1,9 @@
 (* C12 — assembly preserves constituents; uncoupled parts simulate independently.
    Statements only. *)
 From Coq Require Import Reals List Permutation Arith.
+From Coq Require Import Lia.
 From JV Require Import TreeSolve TreeSolveFacts TreePerm ChannelOrder ChannelOrderFacts.
+From JV Require Import HinesArr HinesCheck HinesIdx HinesIdxF AsmStruct AssembleM AsmIdx AssembleGraph AsmIdxF GraphIndep ForestIndep ForestCells.
 Import ListNotations.
 
 (* concatenating the node tables of the constituents keeps every row, under contiguous
@@ -46,3 +48,52 @@ Theorem C12_update_order_matters_for_shared_states :
   (run_chans [pump; nernst] (fun _ => 0) 1%nat = 100 /\ run_chans [nernst; pump] (fun _ => 0) 1%nat = 0 /\
    local pump /\ local nernst /\ ~ indep pump nernst)%R.
 Proof. exact order_matters_for_shared_states. Qed.
+
+(* ---- uncoupled parts simulate independently, at the array level, for EVERY network ----
+   Model/HinesIdxF.v + Model/AsmIdxF.v are the index structure and the edge table of a network (compared exactly with
+   the code by the C01 harness).  Two assignments of conductances, voltages and membrane terms to the same network
+   that agree on cell k - on its compartments and on the edges that end in its nodes - give the same voltages in
+   cell k after an implicit step, whatever differs in the other cells (no edge of the table joins two cells). *)
+Theorem C12_cells_of_every_network_independent :
+  forall (ps ns : list nat) (rs : list bool) (es es' : list (edge R)) (v vt ct v' vt' ct' : nat -> R) (dt : R) (k : nat),
+  (1 <= length ps)%nat -> (forall b, (b < length ps)%nat -> is_root rs b = false -> (nth b ps 0%nat < b)%nat) ->
+  (forall b, (b < length ps)%nat -> (1 <= nth b ns 0%nat)%nat) ->
+  (forall b, (b < length ps)%nat -> is_root rs b = false -> cell_ofF rs (nth b ps 0%nat) = cell_ofF rs b) ->
+  map strip es = triples_ofF ps ns rs -> map strip es' = triples_ofF ps ns rs ->
+  (0 < dt)%R -> (forall e, In e es -> (0 < e_g R e)%R) -> (forall e, In e es' -> (0 < e_g R e)%R) ->
+  (forall i, (i < total ps ns)%nat -> (0 <= vt i)%R) -> (forall i, (i < total ps ns)%nat -> (0 <= vt' i)%R) ->
+  (forall idx, (idx < length es)%nat -> node_cell ps ns rs (e_sink R (nth idx es e0)) = k -> e_g R (nth idx es e0) = e_g R (nth idx es' e0)) ->
+  (forall b r, (b < length ps)%nat -> (r < ncomp_of ns b)%nat -> cell_ofF rs b = k ->
+     let c := (tcs ns b + r)%nat in v c = v' c /\ vt c = vt' c /\ ct c = ct' c) ->
+  let ly := layout_ofF ps ns rs in let ops := ops_of_forest ps ns rs in
+  let mask := nthD (mask_ofF ps ns rs) in let n := total ps ns in
+  let s0 := assemble R Rplus Rminus Rmult 0%R 1%R mask n es v vt ct dt (group_ofF ps rs) (child_inds_ofF ps rs) (par_inds_ofF ps rs) in
+  let s0' := assemble R Rplus Rminus Rmult 0%R 1%R mask n es' v' vt' ct' dt (group_ofF ps rs) (child_inds_ofF ps rs) (par_inds_ofF ps rs) in
+  forall b r, (b < length ps)%nat -> (r < ncomp_of ns b)%nat -> cell_ofF rs b = k ->
+  sv (run R Rplus Rminus Rmult Rdiv 0%R 1%R ly ops s0) (cs_ofF ps ns rs b + r)%nat
+  = sv (run R Rplus Rminus Rmult Rdiv 0%R 1%R ly ops s0') (cs_ofF ps ns rs b + r)%nat.
+Proof. exact network_cells_independent. Qed.
+
+(* the general statement: any edge-closed set of nodes of any structure on which the graph system has a unique solution *)
+Theorem C12_edge_closed_parts_independent :
+  forall (ly : layout) (tp : topo) (mask : nat -> nat) (ncomp : nat) (es es' : list (edge R)) (v vt ct v' vt' ct' : nat -> R) (dt : R) (inS : nat -> bool),
+  (forall c c', (c < ncomp)%nat -> (c' < ncomp)%nat -> mask c = mask c' -> c = c') ->
+  Forall2 (fun e e' => strip e = strip e' /\ inS (e_source R e) = inS (e_sink R e) /\ (inS (e_sink R e) = true -> e_g R e = e_g R e')) es es' ->
+  (forall c, (c < ncomp)%nat -> inS c = true -> v c = v' c /\ vt c = vt' c /\ ct c = ct' c) ->
+  forall x y x' y' : nat -> R,
+  graph_eq ly tp mask ncomp es v vt ct dt x y -> graph_eq ly tp mask ncomp es' v' vt' ct' dt x' y' ->
+  (forall c, (c < ncomp)%nat -> exists b r, (b < nb tp)%nat /\ (r < pl ly b)%nat /\ mask c = (cs ly b + r)%nat) ->
+  (forall x1 y1 x2 y2, graph_eq ly tp mask ncomp es v vt ct dt x1 y1 -> graph_eq ly tp mask ncomp es v vt ct dt x2 y2 ->
+     forall b k, (b < nb tp)%nat -> (k < pl ly b)%nat -> x1 (cs ly b + k)%nat = x2 (cs ly b + k)%nat) ->
+  forall c, (c < ncomp)%nat -> inS c = true -> x (mask c) = x' (mask c).
+Proof. exact parts_independent. Qed.
+
+(* non-vacuity of the same-cell hypothesis: the example network of Props/C01.v *)
+Example C12_network_example :
+  let ps := [0; 0; 0; 1; 0; 4; 0]%nat in let rs := [true; false; false; false; true; false; true] in
+  (forall b, (b < length ps)%nat -> is_root rs b = false -> cell_ofF rs (nth b ps 0%nat) = cell_ofF rs b) /\
+  map (cell_ofF rs) (seq 0 7) = [1; 1; 1; 1; 2; 2; 3]%nat.
+Proof.
+  cbv zeta. split; [|vm_compute; reflexivity].
+  intros b Hb. do 7 (destruct b as [|b]; [vm_compute; intros; try discriminate; reflexivity|]). cbn in Hb. lia.
+Qed.
